@@ -73,6 +73,9 @@ enum Outcome {
     TooManyBins,
     /// accepted, but max + width is not representable in the integer type: outside the property's domain
     MaxPlusWidthNotRepresentable,
+    /// accepted with a bin width that is not positive: `min + n * width` never passes the maximum, so
+    /// neither `n_bins()` nor `build()` can terminate (they are not called)
+    NonPositiveWidth(String),
 }
 
 fn build<T: BE>(s: St, a: &Array1<T>, range: f64, limit: f64, maxf: f64) -> Result<Result<Built<T>, Outcome>, String> {
@@ -81,7 +84,9 @@ fn build<T: BE>(s: St, a: &Array1<T>, range: f64, limit: f64, maxf: f64) -> Resu
             guarded(|| match $ty::<T>::from_array(a) {
                 Ok(b) => {
                     let w = b.bin_width();
-                    if range / w.f() > limit {
+                    if !(w.f() > 0.0) {
+                        Err(Outcome::NonPositiveWidth(format!("{:?}", w)))
+                    } else if range / w.f() > limit {
                         Err(Outcome::TooManyBins)
                     } else if maxf + w.f() > T::tmax() {
                         Err(Outcome::MaxPlusWidthNotRepresentable)
@@ -144,6 +149,10 @@ fn check_one<T: BE>(s: St, data: &[T], label: &dyn Fn() -> String, lx: &mut Loca
             lx.skip("integer data: maximum + one bin width is not representable in the element type (outside the domain)");
             8
         }
+        Err(Outcome::NonPositiveWidth(w)) => {
+            lx.fail("C12/accepted-with-non-positive-width", || format!("{} accepted the data with bin width {}: construction of the bins cannot terminate", desc(), w));
+            9
+        }
         Err(Outcome::TooManyBins) => {
             lx.skip("accepted but range/width exceeds the bin limit (not built)");
             7
@@ -177,6 +186,9 @@ fn check_one<T: BE>(s: St, data: &[T], label: &dyn Fn() -> String, lx: &mut Loca
             let last = &edges[edges.len() - 1];
             lx.check(*first == min, "C12/first-edge-not-min", || format!("{}: first edge {:?}, minimum {:?}", desc(), first, min));
             lx.check(*last > max, "C12/last-edge-not-above-max", || format!("{}: last edge {:?} is not strictly above the maximum {:?} (width {:?}, {} bins)", desc(), last, max, b.width, nb));
+            // tolerance-free form of "at most one bin width above the maximum": the last bin is needed,
+            // i.e. it starts at or below the maximum (no bin lies entirely above the data)
+            lx.check(edges[nb - 1] <= max, "C12/bin-entirely-above-max", || format!("{}: the last bin [{:?}, {:?}) lies entirely above the maximum {:?} ({} bins, width {:?})", desc(), edges[nb - 1], last, max, nb, b.width));
             let scale = min.f().abs().max(max.f().abs());
             let sub_ulp = T::IS_FLOAT && w < 4.0 * ulp_of(scale);
             if sub_ulp {
@@ -243,7 +255,7 @@ struct Large {
     strat: St,
 }
 
-const FPAIRS: [(f64, f64); 13] = [
+const FPAIRS: [(f64, f64); 17] = [
     (0.0, 1.0),
     (0.1, 0.7),
     (-0.3, 0.3),
@@ -257,6 +269,11 @@ const FPAIRS: [(f64, f64); 13] = [
     (1e300, 1.1e300),
     (0.7, 11.3),
     (-2.5e-7, 3.75e8),
+    // min + (max - min) rounds to a value ABOVE max (a maximum rebuilt from the range is not the maximum)
+    (0.7, 2.9),
+    (1.4, 5.7),
+    (2.3, 12.9),
+    (20.400000000000002, 58.9),
 ];
 const IPAIRS: [(i64, i64); 10] = [(0, 1), (0, 7), (-50, 1000), (3, 1_000_003), (-1_000_000_000, 1_000_000_000), (0, 19), (0, 50), (5, 37), (0, 200), (-7, 3000)];
 
@@ -280,7 +297,14 @@ fn large_data<T: BE>(n: usize, lo: f64, hi: f64, placement: u8, int: bool) -> Ve
             match placement {
                 0 => mk(lo),                                                        // zero IQR
                 1 => mk((lo + (hi - lo) * (i as f64 / (n - 1) as f64)).max(lo).min(hi)), // evenly spread
-                _ => mk(if i < n / 2 { lo } else { hi }),                         // quartiles at the extremes
+                2 => mk(if i < n / 2 { lo } else { hi }),                         // quartiles at the extremes
+                _ => {
+                    // small positive IQR: both quartiles next to the middle of the range, one unit
+                    // (integers) or a thousandth of the range (floats) apart
+                    let mid = ((lo + hi) / 2.0).floor();
+                    let step = if int { 1.0 } else { (hi - lo) / 1000.0 };
+                    mk(if i < n / 2 { mid } else { mid + step })
+                }
             }
         })
         .collect()
@@ -421,9 +445,13 @@ fn main() {
                 if quad && n > 600 && n % 97 != 0 {
                     continue;
                 }
-                for placement in 0..3u8 {
+                for placement in 0..4u8 {
                     // the placement only matters for FD / Auto (the others look at n, min, max)
                     if !quad && placement != 1 {
+                        continue;
+                    }
+                    // small positive IQR: integer pairs only, with room for two distinct middle values
+                    if placement == 3 && (pair < FPAIRS.len() || IPAIRS[pair - FPAIRS.len()].1 - IPAIRS[pair - FPAIRS.len()].0 < 4) {
                         continue;
                     }
                     // tie-heavy placements make quickselect quadratic: dense only for small n
@@ -437,7 +465,7 @@ fn main() {
     }
     rep.run_sub(
         "every-n",
-        &format!("every n in 2..={} for Sqrt / Rice / Sturges and every n <= 600 plus every 97th above for FreedmanDiaconis / Auto (3 quartile placements: zero IQR, evenly spread, quartiles at the extremes; the two tie-heavy placements densely for n <= 300 and every 97th n above) x 13 N64 (min,max) pairs (non-representable decimals, 1e6 offset with small spread, adjacent floats (1, 1+eps), (1, 1+4eps), (1e16, 1e16+2), +-1e-300, 1e300 scale) and 10 integer pairs incl. narrow ranges with heavy ties such as (0,19), (5,37), (0,200) (i64; usize when non-negative)", nmax),
+        &format!("every n in 2..={} for Sqrt / Rice / Sturges and every n <= 600 plus every 97th above for FreedmanDiaconis / Auto (quartile placements: zero IQR, evenly spread, quartiles at the extremes, and for integer data an IQR of one unit in the middle of the range; the two tie-heavy placements densely for n <= 300 and every 97th n above) x 17 N64 (min,max) pairs (pairs whose range added back to the minimum does not give the maximum, non-representable decimals, 1e6 offset with small spread, adjacent floats (1, 1+eps), (1, 1+4eps), (1e16, 1e16+2), +-1e-300, 1e300 scale) and 10 integer pairs incl. narrow ranges with heavy ties such as (0,19), (5,37), (0,200) (i64; usize when non-negative)", nmax),
         cases.into_iter(),
         |c, lx| {
             lx.nontrivial(true);
